@@ -900,6 +900,13 @@ def rt_cases(prop):
                       J('main', duration=1, yields=3)]),
             S('top', [S('svc', [J('r', duration=1, yields=2), J('log', duration=None, forever=True, cancel_delay=0.5)], forever=True),
                       J('main', duration=1, yields=4)]),
+            # an enclosing scheduler ends (critical failure / timeout) in the very loop iterations in which a windowed
+            # nested scheduler processes a completion and starts a successor: every offset 0..6 between the two
+            *[S('top', [S('in', [J('a', yields=i), J('b', duration=5), J('s', duration=5)], [(1, 0)], window=2),
+                        J('crit', critical=True, outcome='raise', yields=j)])
+              for i in range(0, 7) for j in range(0, 7) if abs(i - j) <= 4],
+            *[S('top', [S('in', [J('a', yields=i), J('b', duration=5), J('s', duration=5)], [(1, 0)], window=2),
+                        J('long', duration=9)], timeout=1) for i in range(0, 5)],
             # a tolerated failure first, a critical one later, along chains of critical / non-critical schedulers
             S('top', [S('n1', [S('n2', [J('t', outcome='raise'), J('x', duration=2, critical=True, outcome='raise')],
                                  critical=True)], critical=True), J('y', duration=5)], critical=True),
